@@ -326,6 +326,26 @@ class TracerReplayer:
         return "%s %s [program ops %s; after %s]" % (s, clause, ",".join(ops), ">".join(prev) or "recording")
 
 
+TRACES = []          # (name, events) recorded in-process under the probe, validated against TraceTracer.tla by the checks
+
+
+def probe_begin():
+    import os, probe
+    os.environ["ALGOPY_VERIF_PROBE"] = "1"
+    load_algopy()
+    probe.install()
+    probe.reset()
+    from algopy.tracer.tracer import Function
+    Function.cgraph = None
+
+
+def probe_end(name, maxn=400):
+    import probe
+    if probe.EVENTS and len(TRACES) < maxn:
+        TRACES.append((name, list(probe.EVENTS)))
+    probe.reset()
+
+
 RECPT = {"D": 1, "x": [[[[1, 1]], [[2, 1]]]]}
 
 
@@ -372,7 +392,12 @@ def tracer_check(rep, configs, pid, nontrivial=None):
                 calls = [e["c"] for e in h if e["c"] in ("fwd", "pb", "drv")]
                 if kind == "A" and calls and calls[0] == "pb":
                     continue            # a reverse sweep right after recording with plain arrays is not defined
+                rec_this = (bi % 7 == 0) and len(TRACES) < 400
+                if rec_this:
+                    probe_begin()
                 r = TracerReplayer(algopy, h, N, P, rec_kind=kind, prefix=c.get("prefix", "plain")).run(recpt_for(P))
+                if rec_this:
+                    probe_end("%s behaviour %d (%s)" % (name, bi, kind))
                 ninstr = sum(1 for e in h if e["c"] == "rec")
                 ncalls = sum(1 for e in h if e["c"] in ("fwd", "pb", "drv", "other"))
                 nt = (ninstr >= 2 and ncalls >= 1) if nontrivial is None else nontrivial(h)
@@ -480,6 +505,7 @@ def full_api_histories(rep, seed, n=60):
         sig = "full-api history [%s; %s]" % (kind, ",".join(names))
         rep.case(("fullapi", it, kind, tuple(names), D, P), nontrivial=True)
         rep.replayed(1)
+        probe_begin()
         try:
             rec_kind = rnd.choice(["arr", "utpm"])
             x0 = numpy.array([0.3, 0.6, 0.9, 0.5]) if rec_kind == "arr" else algopy.UTPM(numpy.array([[[0.3, 0.6, 0.9, 0.5]]]))
@@ -509,6 +535,7 @@ def full_api_histories(rep, seed, n=60):
                 rep.violation(sig + " node forward values changed by reverse sweeps", {"kind": kind, "ops": names, "D": D, "P": P})
         except Exception as ex:
             rep.violation(sig + " raises " + type(ex).__name__, {"kind": kind, "ops": names, "what": repr(ex)[-300:]})
+        probe_end(sig + " #%d" % it)
 
 
 def jacobian_utpm_check(rep, seed):
@@ -595,6 +622,7 @@ def full_api_adjoint(rep, seed, n=80):
         sig = "full-api adjoint identity [%s]" % name
         rep.case(("fullapi-adj", name, it, D, P), nontrivial=True)
         rep.replayed(1)
+        probe_begin()
         try:
             cg = algopy.CGraph()
             fx = algopy.Function(algopy.UTPM(x.copy()))
@@ -623,6 +651,7 @@ def full_api_adjoint(rep, seed, n=80):
             rep.violation(sig + " raises NotImplementedError", {"what": repr(ex)[-300:]})
         except Exception as ex:
             rep.violation(sig + " raises " + type(ex).__name__, {"D": D, "P": P, "what": repr(ex)[-300:]})
+        probe_end(sig + " #%d" % it)
 
 
 def T_buffer(algopy, x):
@@ -632,3 +661,107 @@ def T_buffer(algopy, x):
     b[0] = g * x[3]
     b[1:] = x[:2] * b[0]
     return algopy.sum(b * b) + g
+
+
+def validate_recorded(rep, what, repo_tests=False):
+    """T leg: traces recorded from the real code in this run (and, optionally, from the repository's own tests) against TraceTracer.tla"""
+    import trace_validate as TV
+    named = list(TRACES)
+    if repo_tests:
+        named += [(x["name"], x["events"]) for x in TV.record_repo_tests() if x["events"]]
+    if not named:
+        raise Machinery("no traces recorded")
+    n = TV.check_traces(rep, named, what)
+    TV.self_test(named)
+    rep.sample({"recorded_trace": named[0][0], "first_events": named[0][1][:6]}, maxn=6)
+    return n
+
+
+def full_api_replays(rep, seed, n=60):
+    """C05 relational fragment over the whole traceable API: re-evaluating the recorded graph at new inputs (ndarray / UTPM of any
+    D, P, unrelated to the recording inputs) must give what running the same Python function directly on those inputs gives."""
+    import random
+    algopy = load_algopy()
+    from algopy import UTPM
+    rnd = random.Random(seed + 11)
+    W = numpy.array([[1., 2.], [3., 5.]])
+
+    def p_pow_traced(x, z):
+        return algopy.sum((x[0:2] * x[0:2] + 1.) ** z)
+
+    def p_buffer(x, z):
+        b = algopy.zeros(3, dtype=x)
+        b[0] = x[0] * z[1]; g = b[0]; b[1] = algopy.sin(g) + x[1]; b[0] = b[1] * z[0]; b[2] = g * 2.0
+        return algopy.sum(b * b) + g
+
+    def p_fft_axis(x, z):
+        A = algopy.reshape(x, (2, 2))
+        return algopy.real(algopy.fft.ifft(algopy.fft.fft(A, axis=0) * 2.0, axis=0)) * z[0]
+
+    def p_views(x, z):
+        A = algopy.reshape(x * x, (2, 2))
+        return algopy.sum(A.T[1] * z) + algopy.sum(A[::-1, 1:], axis=0)[0] + A[1, 0] * z[-1]
+
+    def p_linalg(x, z):
+        A = algopy.reshape(x, (2, 2)) + W
+        return algopy.dot(algopy.inv(A), z) + algopy.solve(A, algopy.reshape(z, (2, 1)))[:, 0] * algopy.det(A)
+
+    def p_consts(x, z):
+        return (3.0 - x[:2]) / (z * 2 + 1.5) + numpy.array([1., 2.]) * z - algopy.ones(2, dtype=z) + algopy.zeros_like(z) + algopy.exp(z * 0.1)
+
+    def p_sum_axes(x, z):
+        A = algopy.reshape(x, (2, 2))
+        return algopy.sum(A * A, axis=1) * z + algopy.sum(A, axis=0) + algopy.sum(A)
+
+    def p_special(x, z):
+        return algopy.special.erf(z) * algopy.sqrt(x[:2] * x[:2] + 1.) + algopy.log1p(z * z) - algopy.tan(x[2:] * 0.3)
+
+    progs = [p_pow_traced, p_buffer, p_fft_axis, p_views, p_linalg, p_consts, p_sum_axes, p_special]
+    for it in range(n):
+        f = progs[it % len(progs)]
+        order = rnd.choice(["xz", "zx"])           # the order in which the independents are LISTED
+        late_z = rnd.random() < 0.5                # z is wrapped after operations on x have been recorded
+        rec_kind = rnd.choice(["arr", "utpm"])
+        sig = "full-api replay [%s]" % f.__name__
+        rep.case(("fullapi-replay", f.__name__, it), nontrivial=True); rep.replayed(1)
+        probe_begin()
+        try:
+            x0 = numpy.array([0.3, 0.6, 0.9, 0.5]); z0 = numpy.array([1.2, 0.7])
+            if rec_kind == "utpm":
+                x0 = UTPM(x0.reshape(1, 1, 4)); z0 = UTPM(z0.reshape(1, 1, 2))
+            cg = algopy.CGraph()
+            fx = algopy.Function(x0)
+            if late_z:
+                pre = fx[0] * fx[1] + 1.0
+                fz = algopy.Function(z0)
+                fy = f(fx, fz) + pre * 0.5
+                direct = lambda a, b: f(a, b) + (a[0] * a[1] + 1.0) * 0.5
+            else:
+                fz = algopy.Function(z0)
+                fy = f(fx, fz)
+                direct = f
+            cg.trace_off()
+            cg.independentFunctionList = [fx, fz] if order == "xz" else [fz, fx]
+            cg.dependentFunctionList = [fy]
+            for rep_i in range(3):
+                kind = rnd.choice(["arr", "utpm"])
+                if kind == "arr":
+                    xa = numpy.array([rnd.uniform(0.2, 1.2) for _ in range(4)]); za = numpy.array([rnd.uniform(0.5, 1.5) for _ in range(2)])
+                else:
+                    D = rnd.choice([1, 2, 3]); P = rnd.choice([1, 2])
+                    xa = UTPM(numpy.array([[[rnd.uniform(0.2, 1.2) for _ in range(4)] for _ in range(P)] for _ in range(D)]))
+                    za = UTPM(numpy.array([[[rnd.uniform(0.5, 1.5) for _ in range(2)] for _ in range(P)] for _ in range(D)]))
+                got = cg.function([xa, za] if order == "xz" else [za, xa])[0]
+                ref = direct(xa, za)
+                gd = got.data if isinstance(got, UTPM) else numpy.asarray(got)
+                rd = ref.data if isinstance(ref, UTPM) else numpy.asarray(ref)
+                if type(got) is not type(ref) and not (numpy.isscalar(got) and numpy.isscalar(ref)) and not (isinstance(got, numpy.ndarray) and isinstance(ref, numpy.ndarray)):
+                    if isinstance(got, UTPM) != isinstance(ref, UTPM):
+                        rep.violation(sig + " result kind", {"got": type(got).__name__, "direct": type(ref).__name__, "replay_kind": kind, "recorded_with": rec_kind}); break
+                if gd.shape != rd.shape or not numpy.allclose(gd, rd, rtol=1e-11, atol=1e-12):
+                    rep.violation(sig + " differs from direct execution", {"replay": rep_i, "replay_kind": kind, "recorded_with": rec_kind, "independents_listed": order,
+                                                                          "second_independent_wrapped_late": late_z,
+                                                                          "err": float(abs(gd - rd).max()) if gd.shape == rd.shape else "shape"}); break
+        except Exception as ex:
+            rep.violation(sig + " raises " + type(ex).__name__, {"what": repr(ex)[-300:], "recorded_with": rec_kind})
+        probe_end(sig + " #%d" % it)
